@@ -182,6 +182,7 @@ Inductive nt :=
 | NLv2 (mp : bool)
 | NLv2Tail (mp : bool) (el : expr)
 | NLv3 (mp : bool)
+| NLv3Tail (mp : bool) (el : expr)
 | NLv4 (mp : bool)
 | NArith
 | NArithTail (el : expr)
@@ -220,7 +221,7 @@ Inductive nt :=
 
 Definition ty (n : nt) : Type :=
   match n with
-  | NExpr _ | NLv1Tail _ _ | NLv2 _ | NLv2Tail _ _ | NLv3 _ | NLv4 _ | NArith | NArithTail _ | NMulDiv | NMulDivTail _
+  | NExpr _ | NLv1Tail _ _ | NLv2 _ | NLv2Tail _ _ | NLv3 _ | NLv3Tail _ _ | NLv4 _ | NArith | NArithTail _ | NMulDiv | NMulDivTail _
   | NMember | NMemberTail _ | NBasic | NArray | NArrayItems _ | NMapItems _ | NMethodCall | NObjNew => expr
   | NFuncCall _ => call
   | NExprList _ => list expr
@@ -260,12 +261,12 @@ Fixpoint parse (fuel : nat) (n : nt) {struct fuel} : M (ty n) :=
         | Some _ => r <- parse f (NLv3 mp) ;; parse f (NLv2Tail mp (ELogic 2 el r))
         | None => ret el
         end
-    | NLv3 mp =>
-        l <- parse f (NLv4 mp) ;;
+    | NLv3 mp => el <- parse f (NLv4 mp) ;; parse f (NLv3Tail mp el)
+    | NLv3Tail mp el =>
         o <- tc lv3_types ;;
         match o with
-        | Some tk => r <- parse f (NLv4 mp) ;; ret (ELogic (logic_type (t_ty tk)) l r)
-        | None => ret l
+        | Some tk => r <- parse f (NLv4 mp) ;; parse f (NLv3Tail mp (ELogic (logic_type (t_ty tk)) el r))
+        | None => ret el
         end
     | NLv4 mp =>
         l <- parse f NArith ;;
